@@ -45,7 +45,7 @@ def main():
             t0 = time.time()
             cmd = [sys.executable, os.path.join(VERIF, 'run_check.py'), p, a.tier, '--no-evidence', '--jobs', a.jobs]
             if a.only: cmd += ['--only', a.only]
-            rc, o = sh(cmd, env=dict(os.environ, VERIF_REPO=wt), cwd=VERIF)
+            rc, o = sh(cmd, env=dict(os.environ, VERIF_REPO=wt, VERIF_REPLAY_DIR='/var/tmp/seed_replay'), cwd=VERIF)
             lines = [l for l in o.split('\n') if l.startswith(('VIOLATION', 'BROKEN', 'KNOWN-FINDING')) or 'assertion=' in l]
             out['checks'][p] = {'rc': rc, 'wall_s': round(time.time() - t0, 1), 'lines': lines[:12]}
     finally:
